@@ -114,8 +114,8 @@ def finding_key(viol, kind, opn):
 def run(ctx):
     ctx.proofs()
     hx = ctx.go_build("c04")
-    ngraphs = 250 if ctx.quick() else 6000
-    ncoq = 45 if ctx.quick() else 500          # graphs whose every probe is also evaluated inside Coq
+    ngraphs = 250 if ctx.quick() else 4000
+    ncoq = 45 if ctx.quick() else 400          # graphs whose every probe is also evaluated inside Coq
     recs = ctx.jsonl([hx, "-seed", str(ctx.seed), "-n", str(ngraphs)], timeout=840)
     graphs = [r for r in recs if r["kind"] == "graph"]
     ctx.log("harness: %d graphs, %d probes, %d child failures" % (
@@ -154,6 +154,9 @@ def run(ctx):
         if not g["env_ok"]:
             ctx.finding("environment-changed", "executing module #%d changed predeclared or Universe: %s" % (g["i"], g.get("env_note")),
                         {"graph": g["i"], "module": g["src"]})
+        if g.get("storm"):
+            ctx.finding("frozen-value-mutable:sequence", "module #%d: after applying every operation in sequence to the objects that must be immutable, %s" % (g["i"], g["storm"]),
+                        {"graph": g["i"], "module": g["src"], "what": g["storm"]})
         for x in g.get("read_viol") or []:
             ctx.finding("read-changes-state", "module #%d: %s" % (g["i"], x), {"graph": g["i"], "module": g["src"]})
         if set(g.get("walk") or []) != set(g.get("reach") or []):
@@ -235,6 +238,7 @@ Definition s_ok (c : (nat * probe) + (nat * nat * list nat)) : bool :=
         "samples": [{"module": g["src"], "roots": g.get("roots"), "probe": (g["probes"] or [None])[0]} for g in graphs[:2]],
         "distribution": dist, "coq_cases": ncases, "model_mismatches": bad_model_total, "spec_mismatches": bad_spec_total,
         "graphs": len(graphs), "child_failures": len(recs) - len(graphs),
+        "sequence_ops": sum(g.get("storm_ops", 0) for g in graphs),
     }
     return ctx.finish(LEVEL, cov, assumptions=[
         "objects are identified through a host-side registry (reg(id, v)); atoms are small integers; keys and compared operands of probes are integer atoms",
